@@ -296,6 +296,9 @@ def run(ctx: fw.Ctx):
         ("rec {\n  a = v;\n  v = \"1\";\n}\n", [("set", "a", '"N1"'), ("rm", "v"), ("set", "a", '"N2"')]),
         ("let\n  v = \"0\";\nin\n{\n  a = v;\n}\n", [("set", "a", '"N1"'), ("set", "@v", '"9"'), ("rm", "@v"), ("set", "a", '"N2"')]),
         ("rec {\n  a = b;\n  b = c;\n  c = \"3\";\n}\n", [("set", "a", '"N1"'), ("set", "b", '"mid"'), ("set", "a", '"N2"')]),
+        # a legitimate chain that meets the same NAME in two scopes (not a cycle)
+        ("let\n  a = x;\n  x = b;\n  b = \"1\";\nin\nrec {\n  x = a;\n  y = x;\n}\n", [("set", "y", '"N1"'), ("set", "y", '"N2"')]),
+        ("let\n  v = u;\n  u = \"1\";\nin\nlet\n  w = v;\nin\nlet\n  v = w;\nin\n{\n  y = v;\n}\n", [("set", "y", '"N1"')]),
         # positions inside a layer change between edits (a binding before the referenced one is removed / added)
         ("let\n  u = \"0\";\n  v = \"1\";\n  w = \"2\";\nin\n{\n  a = v;\n  b = w;\n}\n",
          [("set", "a", '"N1"'), ("rm", "@u"), ("set", "a", '"N2"'), ("set", "b", '"N3"')]),
@@ -314,6 +317,50 @@ def run(ctx: fw.Ctx):
     ec.correspond(ctx, [h for h in hists if not str(h.info.get("wrapper")).startswith("with-lit")])
     observe(ctx, hists)
     call_inherit(ctx)
+    mapping_assign(ctx)
+
+
+def mapping_assign(ctx: fw.Ctx):
+    """assignment through the identifier (`doc[key].value = v`, the mapping API's way of the same edit):
+    the binding that defines the name under Nix scoping gets the value, nothing else changes"""
+    from nix_manipulator import parse
+
+    from ..layout import leaves_of
+
+    cases = [
+        ("let\n  v = \"1\";\nin\n{\n  y = v;\n}\n", "y"),
+        ("let\n  v = \"1\";\nin\nlet\n  v = \"2\";\nin\n{\n  y = v;\n}\n", "y"),
+        ("let\n  v = \"1\";\nin\nrec {\n  v = \"2\";\n  y = v;\n}\n", "y"),
+        ("rec {\n  a = b;\n  b = c;\n  c = \"3\";\n}\n", "a"),
+        # the document body is a name; the set it denotes was written where an OUTER v is in scope
+        ("let\n  v = \"1\";\n  body = {\n    y = v;\n  };\nin\nlet\n  v = \"2\";\nin\nbody\n", "y"),
+        ("let\n  v = \"1\";\n  body = rec {\n    y = v;\n  };\nin\nlet\n  v = \"2\";\nin\nlet\n  u = 0;\nin\nbody\n", "y"),
+        ("let\n  v = \"1\";\n  args = {\n    y = v;\n  };\nin\nlet\n  v = \"2\";\nin\nf args\n", "y"),
+        ("let\n  v = \"1\";\nin\nlet\n  body = {\n    y = v;\n  };\n  v = \"2\";\nin\nbody\n", "y"),
+    ]
+    for text, key in cases:
+        b, ref = ref_of_path(text, [key])
+        if ref is None:
+            continue
+        res = resolve(ref, ref.text.decode())
+        ctx.case({"doc": text, "key": key, "mapping-assign": True, "resolves": res[0]}, True)
+        if res[0] != "binding":
+            continue
+        tv = res[1].child_by_field_name("expression")
+        bb = text.encode()
+        want = (bb[:tv.start_byte] + b'"NEW"' + bb[tv.end_byte:]).decode()
+        try:
+            src = parse(text)
+            src[key].value = parse('"NEW"').expr
+            out = src.rebuild()
+        except Exception as exc:  # noqa: BLE001
+            out = f"<raises {type(exc).__name__}: {exc}>"
+        tw = [t for (_k, t, _s, _e) in leaves_of(want)[0]]
+        to = None if out.startswith("<raises") else [t for (_k, t, _s, _e) in leaves_of(out)[0]]
+        if tw != to:
+            ctx.fail({"clause": "mapping-assign", "binder": binder_kind(res), "body_is_name": "body\n" in text or "f args" in text},
+                     {"doc": text, "ops": [["assign", key, '"NEW"']], "output": out, "expected": want, "stream": "fixed"},
+                     f"doc[{key!r}].value = \"NEW\" on {text!r}: got {out!r}, expected {want!r}")
 
 
 def call_inherit_docs():
